@@ -276,7 +276,10 @@ func (b *builtWorld) recordSigned(e rsl.Entry, signer int) error {
 	return e.Commit(b.m, true)
 }
 
-func buildWorld(w *wWorld) (*builtWorld, error) {
+func buildWorld(w *wWorld) (*builtWorld, error) { return buildWorldHook(w, nil) }
+
+// buildWorldHook calls hook(i, b) after event i has been recorded.
+func buildWorldHook(w *wWorld, hook func(i int, b *builtWorld) error) (*builtWorld, error) {
 	b := &builtWorld{m: newMemStore(), commits: map[int]githash.Hash{}, commitOf: map[string]int{}, trees: map[int]githash.Hash{}}
 	rsl.VerifResetCache()
 	for _, c := range w.Commits {
@@ -309,7 +312,7 @@ func buildWorld(w *wWorld) (*builtWorld, error) {
 		}
 		return b.commits[n].String()
 	}
-	for _, e := range w.Events {
+	for evIdx, e := range w.Events {
 		switch e.Kind {
 		case "policy", "staging":
 			ref := policy.PolicyRef
@@ -389,6 +392,11 @@ func buildWorld(w *wWorld) (*builtWorld, error) {
 		}
 		tip, _ := b.m.GetReference(rsl.Ref)
 		b.entryIDs = append(b.entryIDs, tip)
+		if hook != nil {
+			if err := hook(evIdx, b); err != nil {
+				return nil, err
+			}
+		}
 	}
 	return b, nil
 }
